@@ -505,6 +505,17 @@ int open_data_file(struct uftrace_opts *opts, struct uftrace_data *handle)
 			saved_errno = ENODATA;
 			goto out;
 		}
+
+		/* a tid without TASK/FORK line (task.txt cut short) is a nameless task */
+		for (i = 0; i < handle->info.nr_tid; i++) {
+			struct uftrace_msg_task tmsg = {
+				.pid = handle->info.tids[i],
+				.tid = handle->info.tids[i],
+			};
+
+			if (find_task(sessions, tmsg.tid) == NULL)
+				create_task(sessions, &tmsg, false);
+		}
 	}
 
 	if (handle->hdr.info_mask & ARG_SPEC) {
